@@ -263,3 +263,61 @@ def loop_of_item(it, t):
             if heads:
                 return heads[0]
     return cands[0] if cands else None
+
+
+def adds_every(facts, body, it, dst, src_param, src_path):
+    """Every element of <src_param>.<src_path> is added to self.<dst> on every path through the function:
+    a single extend/append of the whole source, or a complete loop over it whose every iteration inserts the item
+    (directly or through a helper whose effect is an insert into self.<dst>)."""
+    from ..summaries import call_effects
+    rc = Reach(facts, body, Evaluator(facts))
+    for bb, c in sorted(it.calls.items()):
+        if call_name(c.term) in ('extend', 'append') and len(c.args) == 2 and param_path(versionless(c.args[0].val)) == (1, tuple(dst)):
+            src = c.args[1].val
+            base, kind, clo = iter_source(src)
+            if param_path(base) == (src_param, tuple(src_path)) and not clo and not (set(iter_adaptors(src)) & LOSSY_ADAPTORS) and rc.must_pass([bb]):
+                return True, bb
+    for lp in loops_of(it):
+        if not lp.whole_over(src_param, tuple(src_path)) or lp.early_exits() or lp.source()[2]:
+            continue
+        sites = []
+        for bb in sorted(lp.blocks):
+            c = it.calls.get(bb)
+            if c is None or not any(item_derived(a.val, lp) for a in c.args[1:]):
+                continue
+            for e in call_effects(facts, it, bb):
+                if e.param == 1 and tuple(e.path) == tuple(dst) and e.kind == 'w' and e.how in KEEP_CALLS:
+                    sites.append(bb)
+        if sites and lp.must(rc, sites) and lp.always_entered(rc):
+            return True, sites[0]
+    return False, None
+
+
+def accumulates(facts, body, t, init_ok, src_ok, step_ok):
+    """t (a return value) is an accumulator local: initialised with a value accepted by init_ok, then updated once in
+    every iteration of a complete loop (no early exit) over a source accepted by src_ok(loop), by a call accepted by
+    step_ok(call record, loop), and touched by nothing else inside the loop."""
+    if t[0] != 'lv' or not t[2].startswith('L'):
+        return False
+    head, local, init = t[1], t[2], drop_lv(t[3])
+    if not init_ok(init):
+        return False
+    it = interp(facts, body)
+    lp = [l for l in loops_of(it) if l.head == head]
+    if not lp or lp[0].early_exits() or not src_ok(lp[0]):
+        return False
+    lp = lp[0]
+    root = ('L', int(local[1:]))
+    sites, other = [], []
+    for (bb, ai), w in it.muts.items():
+        if bb in lp.blocks and w.loc[0] == root:
+            if ai == 0 and step_ok(it.calls[bb], lp):
+                sites.append(bb)
+            else:
+                other.append(bb)
+    for (bb, si), w in it.writes.items():
+        if bb in lp.blocks and w.loc[0] == root and not (w.val[0] == 'lv' or versionless(w.val) == versionless(t)):
+            other.append(bb)
+    if other or not sites:
+        return False
+    return lp.must(Reach(facts, body, Evaluator(facts)), sites)
